@@ -444,7 +444,8 @@ fn struct_init_block_inner(
         (_, TypeHint::Tuple, _) => quote!((#(#fragments)*)),
         (_, TypeHint::Unspecified, true) => quote!({#(#fragments)*}),
         (_, TypeHint::Unspecified, false) => quote!((#(#fragments)*)),
-        (_, TypeHint::Unit, _) => unreachable!("2"),
+        // a nested struct hinted 'as Unit' in #[child_parents(...)] is written as its bare path, like a unit counterpart
+        (_, TypeHint::Unit, _) => TokenStream::new(),
     }
 }
 
@@ -717,7 +718,8 @@ fn render_child(
         (true, TypeHint::Tuple) => quote!(#ty #init,),
         (false, TypeHint::Tuple | TypeHint::Unspecified) => quote!(#ty #init,),
         (false, TypeHint::Struct) => quote!(#child_name: #ty #init,),
-        (_, TypeHint::Unit) => unreachable!("15"),
+        // the enclosing struct is hinted 'as Unit': it has no place for a nested one
+        (_, TypeHint::Unit) => TokenStream::new(),
     }
 }
 
